@@ -4,7 +4,8 @@ src="/verif/seeded/"+name
 diff=open(src+"/patch.diff").read()
 fns=sorted(set(re.findall(r"^@@.*?def (\w+)",diff,re.M))|set(re.findall(r"^[ +-]\s*def (\w+)",diff,re.M)))
 fns=[f.strip('_') for f in fns]
-extra={"_process_trans_SIR_":"fast_SIR or fast_nonMarkov_SIR","subsample":"SIR_dynamics or SIS_dynamics","get_PGFPrime":"EBCM or estimate_R0 or final_size",
+extra={"SIR_pair_based":"pair_based","SIS_pair_based":"pair_based","nonMarkov_directed_percolate_network_with_timing":"estimate_SIR_prob_size or final_sizes or percol",
+       "estimate_SIR_prob_size_from_dir_perc":"estimate_SIR_prob_size or final_sizes","_process_trans_SIR_":"fast_SIR or fast_nonMarkov_SIR","subsample":"SIR_dynamics or SIS_dynamics","get_PGFPrime":"EBCM or estimate_R0 or final_size",
        "_get_NkNl_and_IC_as_arrays_":"heterogeneous_pairwise","_dSIR_heterogeneous_pairwise_":"heterogeneous_pairwise","_out_component_":"final_sizes or estimate_SIR","get_infected_nodes":"final_sizes or estimate_SIR"}
 k=" or ".join(sorted(set(fns+[v for kk,v in extra.items() if kk.strip('_') in fns or kk in diff])))
 k="(%s) and not million and not Animation and not Snapshot"%k
